@@ -410,6 +410,155 @@ def py_mapper(m):
     return json.loads(json.dumps(m["d"]))
 
 
+# ------------------------------------------------------------------ inheritance (declarations flattened by the MRO)
+
+HIER_SHAPES = ["chain", "chain3", "two-bases", "diamond", "diamond", "diamond", "diamond+1"]
+
+
+def gen_hierarchy(rng, dg, ci):
+    """a class hierarchy built with type(): chains, several bases, diamonds; a field can be re-declared with
+    other constraints at any class (in particular at the second base of a diamond only)"""
+    shape = rng.choice(HIER_SHAPES)
+    pre = f"H{ci}"
+    kinds = ["integer", "number", "float", "string", "integer", "string"]
+    pool = ["a", "b", "c", "d", "e1", "f_2"]
+    n_root = rng.randint(2, 3)
+    root_names = rng.sample(pool, n_root)
+    kind_of = {n: rng.choice(kinds) for n in pool}
+    root = {"name": pre + "R", "bases": [], "fields": [[n, dg.scalar(kind_of[n])] for n in root_names],
+            "required": sorted(n for n in root_names if rng.random() < 0.6), "addl": rng.random() < 0.5}
+    classes = [root]
+
+    def sub(name, bases, redeclare_p):
+        fields = []
+        inherited = [n for n in pool if any(n in [x for x, _ in classes[i]["fields"]] for i in closure(bases))]
+        for n in inherited:
+            if rng.random() < redeclare_p:
+                fields.append([n, dg.scalar(kind_of[n])])
+        fresh = [n for n in pool if n not in inherited]
+        if fresh and rng.random() < 0.6:
+            n = rng.choice(fresh)
+            fields.append([n, dg.scalar(kind_of[n])])
+        classes.append({"name": name, "bases": bases, "fields": fields})
+        return len(classes) - 1
+
+    def closure(bases):
+        out, todo = set(), list(bases)
+        while todo:
+            i = todo.pop()
+            if i not in out:
+                out.add(i)
+                todo += classes[i]["bases"]
+        return out
+    if shape == "chain":
+        sub(pre + "C", [0], 0.5)
+    elif shape == "chain3":
+        m = sub(pre + "M", [0], 0.4)
+        sub(pre + "C", [m], 0.4)
+    elif shape == "two-bases":
+        other_names = [n for n in pool if n not in root_names][:2]
+        classes.append({"name": pre + "O", "bases": [], "fields": [[n, dg.scalar(kind_of[n])] for n in other_names],
+                        "required": []})
+        sub(pre + "C", [0, 1], 0.3)
+    else:
+        a = sub(pre + "A", [0], 0.25)          # first base: rarely re-declares
+        b = sub(pre + "B", [0], 0.7)           # second base: often the only one that re-declares
+        c = sub(pre + "C", [a, b], 0.15)
+        if shape == "diamond+1":
+            sub(pre + "D", [c], 0.2)
+    return {"shape": shape, "classes": classes}
+
+
+def flatten_hierarchy(h):
+    """the declaration of the most derived class as Python resolves it: every field name to the first class of
+    the MRO that declares it (computed with plain Python classes, independent of typedpy)"""
+    classes = h["classes"]
+    dummies = []
+    for c in classes:
+        dummies.append(type(c["name"], tuple(dummies[i] for i in c["bases"]) or (object,), {}))
+    mro = [dummies.index(d) for d in dummies[-1].mro() if d in dummies]
+    fields, shadows = {}, {}
+    for idx in reversed(mro):
+        for n, fd in classes[idx]["fields"]:
+            if n in fields:
+                shadows.setdefault(n, []).append(fields[n])
+            fields[n] = fd
+    required = set()
+    for idx in mro:
+        c = classes[idx]
+        required |= set(c["required"]) if "required" in c else {n for n, _ in c["fields"]}
+    addl = next((classes[i]["addl"] for i in mro if "addl" in classes[i]), True)
+    decl = {"k": "struct", "name": classes[-1]["name"], "required": sorted(required), "addl": addl,
+            "fields": [[n, fd] for n, fd in fields.items()]}
+    return decl, shadows
+
+
+def disagreeing_value(vg, eff, shadows):
+    """a value the MRO-resolved field accepts and a shadowed declaration of the same name rejects"""
+    k = eff["k"]
+    if k in ("integer", "number", "float"):
+        cands = [x for x in vg.num_candidates(eff) + [y for sh in shadows for y in vg.num_candidates(sh)]
+                 if vg.guess_num_ok(eff, x) and any(not vg.guess_num_ok(sh, x) for sh in shadows if sh["k"] == k)]
+        vg.rng.shuffle(cands)
+        for x in cands:
+            w = vg.wire_num(k, x)
+            if w is not None:
+                return w
+    if k == "string":
+        pool = [s for s in gen.STRINGS + ["ac", "abc", "xa", "bz", "abz", "xz", "abcdef"]
+                if vg.guess_str_ok(eff, s) and any(sh["k"] == "string" and not vg.guess_str_ok(sh, s) for sh in shadows)]
+        if pool:
+            return vg.rng.choice(pool)
+    return gen.NOVALUE
+
+
+def hierarchy_case(rng, dg, vg, ci):
+    h = gen_hierarchy(rng, dg, ci)
+    flat, shadows = flatten_hierarchy(h)
+    C.fix_accepts(flat)
+    kws = []
+    for _ in range(5):
+        kw = vg.valid_kw(flat)
+        if kw is gen.NOVALUE:
+            continue
+        kw = [kv for kv in kw if not kv[0].startswith("extra_")]
+        for n, fd in flat["fields"]:       # every field: which ones the hierarchy ends up requiring is typedpy's rule
+            if n not in [k for k, _ in kw]:
+                v = vg.valid(fd)
+                if v is not gen.NOVALUE:
+                    kw.append([n, v])
+        # steer towards values on which the resolved and a shadowed declaration of a field disagree
+        for n, shs in shadows.items():
+            fd = dict((x, f) for x, f in flat["fields"])[n]
+            v = disagreeing_value(vg, fd, shs)
+            if v is not gen.NOVALUE and rng.random() < 0.8:
+                kw = [kv for kv in kw if kv[0] != n] + [[n, v]]
+        kws.append(kw)
+    cls = flat
+    if rng.random() < 0.4 and kws:
+        # a class that nests the most derived class (by reference, and as array element)
+        cls = {"k": "struct", "name": f"H{ci}Outer", "required": ["n"], "addl": True,
+               "fields": [["n", flat], ["arr", {"k": "seqOf", "item": copy.deepcopy(flat)}], ["k", {"k": "integer"}]]}
+        C.fix_accepts(cls)
+        kws = [[["n", {"o": [flat["name"], kw]}], ["arr", {"l": [{"o": [flat["name"], kw2]} for kw2 in kws[:2]]}]] for kw in kws]
+    return {"suite": "schema", "cls": cls, "kws": kws, "bdocs": [], "bkeys": [], "hier": h,
+            "re": gen.re_table(cls, kws), "enum_kinds": {}, "history": []}
+
+
+def build_hierarchy(h, ctx):
+    from typedpy import Structure
+    built = []
+    for c in h["classes"]:
+        body = {n: dump.build_field(fd, ctx) for n, fd in c["fields"]}
+        if "required" in c:
+            body["_required"] = list(c["required"])
+        if "addl" in c:
+            body["_additional_properties"] = bool(c["addl"])
+        built.append(type(c["name"], tuple(built[i] for i in c["bases"]) or (Structure,), body))
+        ctx.classes[c["name"]] = built[-1]
+    return built[-1]
+
+
 def gen_cases(rng, tier, n_classes):
     cases = []
     for ci in range(n_classes):
@@ -420,6 +569,9 @@ def gen_cases(rng, tier, n_classes):
                      "setOf", "tupleOf", "tuplePos", "mapOf", "struct", "inline", "anyOf"]
         dg = gen.DeclGen(rng, max_depth=rng.choice([1, 2, 2, 3] if tier == "quick" else [1, 2, 3, 4]), allow=allow)
         vg = gen.ValGen(rng)
+        if rng.random() < 0.12:
+            cases.append(hierarchy_case(rng, dg, vg, ci))
+            continue
         cls = dg.class_decl(0, n_fields=rng.choice([1, 2, 2, 3, 4]))
         cls["name"] = f"K{ci}"
         if rng.random() < 0.15:
@@ -587,18 +739,45 @@ def export(cls, ctx, history):
 def run_impl(case):
     ctx = make_ctx(case.get("enum_kinds"))
     decl = {k: v for k, v in case["cls"].items() if k != "collide"}
+    mismatch = None
     try:
-        cls = dump.build_class(decl, ctx)
+        if case.get("hier"):
+            top = build_hierarchy(case["hier"], ctx)      # registered by name: a nesting class refers to it
+            cls = top if decl["name"] == top.__name__ else dump.build_class(decl, ctx)
+        else:
+            cls = dump.build_class(decl, ctx)
     except Exception as e:
         return {"unbuildable": f"class: {type(e).__name__}: {e}"}
     back = dump.normalize_decl(dump.dump_class(cls, ctx))
-    if back != dump.normalize_decl(decl):
-        return {"abstraction_mismatch": {"dumped": back, "declared": dump.normalize_decl(decl)}}
+    if case.get("hier"):
+        # how `_required` merges over a hierarchy is not part of this check: take it from the class
+        def adopt(want, got):
+            if isinstance(want, dict) and isinstance(got, dict):
+                if want.get("k") == "struct" and got.get("k") == "struct" and want.get("name") == got.get("name"):
+                    want["required"] = got.get("required", want.get("required"))
+                for k in want:
+                    if k in got:
+                        adopt(want[k], got[k])
+            elif isinstance(want, list) and isinstance(got, list) and len(want) == len(got):
+                for a, b in zip(want, got):
+                    adopt(a, b)
+        want = dump.normalize_decl(decl)
+        adopt(want, back)
+        decl_n = want
+    else:
+        decl_n = dump.normalize_decl(decl)
+    if back != decl_n:
+        mismatch = {"dumped": back, "declared": decl_n}
+        if not case.get("hier"):
+            return {"abstraction_mismatch": mismatch}
     if case["cls"].get("collide"):
         old, new = case["cls"]["collide"]
         if old in ctx.classes:
             ctx.classes[old].__name__ = new
     res = {"cls_actual": C.fix_accepts(dump.dump_class(cls, ctx, order="definition"))}
+    if mismatch:
+        # the hierarchy does not flatten to what Python's MRO says: reported as a disagreement; the oracle goes on
+        res["flattening_mismatch"] = mismatch
     for name, m in (case.get("own_mappers") or {}).items():
         if name in ctx.classes:      # before the class is serialized or exported for the first time
             setattr(ctx.classes[name], "_serialization_mapper", py_mapper(m))
@@ -1023,6 +1202,8 @@ def tags(case, impl, model):
         return ["impl:skipped"]
     if renaming(case):
         out.append("stream:key-renaming-mapper(oracle only)")
+    if case.get("hier"):
+        out.append("stream:inheritance:" + case["hier"]["shape"] + (":nested" if case["cls"]["name"].endswith("Outer") else ""))
     out.append("schema:" + ("raises:" + impl["schema_err"]["err"] if "schema_err" in impl else
                             ("wf" if impl.get("wf") and impl.get("refs_ok") else "ill-formed:" + (impl.get("wf_err") or {}).get("key", "ref"))))
     m = (model or {}).get("out", model) or {}
@@ -1090,6 +1271,9 @@ def correspondence(case, impl, model):
         return None
     if "abstraction_mismatch" in impl:
         return "dump(build(decl)) != decl: " + json.dumps(impl["abstraction_mismatch"])[:600]
+    if "flattening_mismatch" in impl:
+        return "get_all_fields_by_name() of the most derived class is not the MRO-resolved declaration: " + \
+            json.dumps(impl["flattening_mismatch"])[:600]
     if model["raises"] != ("schema_err" in impl):
         return f"model raises={model['raises']}, real code: {impl.get('schema_err') or 'returns a schema'}"
     if "schema" in impl:
@@ -1207,4 +1391,12 @@ def culprit_field(cls, msg):
     m = re.match(r"^(\w+):", msg or "")
     if m and m.group(1) in names:
         return names[m.group(1)]
+    # the message names a nested class ("Cls2: missing a required argument"): the field that holds it
+    m = re.match(r"^(\w+)[:.]", msg or "")
+    if m:
+        holders = [f for f in names.values() if ('"name": "%s"' % m.group(1)) in json.dumps(f)]
+        if len(holders) == 1:
+            return holders[0]
+        if holders:
+            return {"k": "fields-holding-" + m.group(1), "items": holders}
     return None
